@@ -21,6 +21,7 @@ import itertools
 import json
 import multiprocessing as mp
 import pickle
+import threading
 import time
 
 import lib
@@ -389,20 +390,47 @@ def run_impl(cases):
 # --------------------------------------------------------------------------
 # model side
 # --------------------------------------------------------------------------
-def model_line(case, sort):
-    spec = case["cache"]
-    mspec = ["lru", spec[1]] if spec[0] == "lru" else ["dict"]
-    g = lambda x: [bool(x["strict"]), x["policy"], x["ttl"]]  # noqa: E731
-    h = []
-    for op in case["h"]:
-        if op[0] in ("e", "p"):
-            h.append([op[0], bool(op[1]), op[2]])
-        elif op[0] == "c":
-            h.append(["c", bool(op[1])])
-        else:
-            h.append(["t", op[1]])
-    return lib.model_call("cg.run", bool(sort), mspec, spec[0] == "pickle", g(case["g1"]), g(case["g2"]),
-                          case.get("facts") or [], h)
+def model_run(cases, sort, batch=250):
+    """one cg.batch line per `batch` cases: policies and requests are sent once per line (pool indices in the
+    histories) because parsing dominates the model's cost.  -> decoded answer per case"""
+    lines = []
+    for i in range(0, len(cases), batch):
+        pols, reqs, pix, rix = [], [], {}, {}
+
+        def intern(x, pool, ix):
+            k = ordered(x)
+            if k not in ix:
+                ix[k] = len(pool)
+                pool.append(x)
+            return ix[k]
+
+        enc_cases = []
+        facts = None
+        for case in cases[i:i + batch]:
+            spec = case["cache"]
+            mspec = ["lru", spec[1]] if spec[0] == "lru" else ["dict"]
+            f = case.get("facts") or []
+            if facts is None:
+                facts = f
+            elif f != facts:
+                raise ValueError("one batch, one fact table")
+            g = lambda x: [bool(x["strict"]), intern(x["policy"], pols, pix), x["ttl"]]  # noqa: E731
+            h = []
+            for op in case["h"]:
+                if op[0] == "e":
+                    h.append(["e", bool(op[1]), intern(op[2], reqs, rix)])
+                elif op[0] == "p":
+                    h.append(["p", bool(op[1]), intern(op[2], pols, pix)])
+                elif op[0] == "c":
+                    h.append(["c", bool(op[1])])
+                else:
+                    h.append(["t", op[1]])
+            enc_cases.append([mspec, spec[0] == "pickle", g(case["g1"]), g(case["g2"]), h])
+        lines.append(lib.model_call("cg.batch", bool(sort), facts or [], pols, reqs, enc_cases))
+    out = []
+    for o in lib.run_model(RUNNER, lines, chunk=1, procs=12):
+        out.extend(lib.dec(o))
+    return out
 
 
 _SORT = None
@@ -547,10 +575,22 @@ def check_cases(chk, cases, replay=False):
     sort = detect_sort()
     chk.extra["model_switch_sort_keys"] = sort
     cases = [expand(c) for c in cases]
+    box = {}
+
+    def _model():
+        try:
+            box["outs"] = model_run(cases, sort)
+        except BaseException as e:  # noqa: BLE001
+            box["err"] = e
+
+    th = threading.Thread(target=_model)   # the model runs in subprocesses while the shards run the implementation
+    th.start()
     impls = run_impl([strip(c) for c in cases])
-    outs = lib.run_model(RUNNER, [model_line(c, sort) for c in cases])
-    for c, res, o in zip(cases, impls, outs):
-        m = lib.dec(o)
+    th.join()
+    if "err" in box:
+        raise box["err"]
+    outs = box["outs"]
+    for c, res, m in zip(cases, impls, outs):
         nev = len(res)
         hits = sum(1 for r in res if r["hit"])
         chk.mark(c.get("_key") or canon(strip(c)), hits > 0)
@@ -694,14 +734,14 @@ def random_history(rng, lo, hi):
 
 
 def pair_cases():
-    """every ordered pair of pool requests, evaluated one after the other under one policy with a large cache:
+    """every pair of pool requests, evaluated one after the other under one policy with a large cache:
     the second lookup hits iff the two requests have one cache key (the near-duplicate sweep); plus the same pair
     on two guards of different type mode sharing the cache."""
     for pn in ("num", "meta2", "obl", "rel"):
         for strict in (False, True):
             for a in range(len(REQS)):
-                for b in range(len(REQS)):
-                    if (a * 31 + b * 17 + len(pn)) % 4 and pn != "num":   # all pairs for "num", a quarter for the others
+                for b in range(a, len(REQS)):
+                    if pn != "num" and (a * 31 + b * 17 + len(pn)) % 4:   # all pairs for "num", a quarter for the others
                         continue
                     yield {"fam": "pairs", "cache": ["lru", BIG], "g1": {"strict": strict, "policy": POL[pn], "ttl": None},
                            "g2": {"strict": not strict, "policy": POL[pn], "ttl": None}, "facts": FACTS,
@@ -765,7 +805,7 @@ def run(chk):
                 "order and roles-vs-attribute; key order of an object-valued attribute; contexts deciding obligations; id types "
                 "and id-vs-attribute) with DefaultInMemoryCache(2), cache_ttl=2; all histories of length <= 3 (thorough: <= 4) "
                 "over the 12-letter two-guard alphabet for second guard = other policy / same policy in the other type mode, "
-                "caches LRU(1), LRU(2), dict, pickling; all ordered pairs of the %d-request pool; A->B->A replacement scripts; a "
+                "caches LRU(1), LRU(2), dict, pickling; all unordered pairs of the %d-request pool; A->B->A replacement scripts; a "
                 "seeded sample of words across capacities {0,1,2,64}, TTL {None,0,2}, both type modes, one/two guards; seeded "
                 "random histories of length <= 60 over 14 policies (first-applicable / deny- / permit-overrides, policy sets, "
                 "obligations that fail and succeed, rel, between). Every evaluation is compared with a fresh uncached Guard "
